@@ -11,3 +11,4 @@ def run(ctx, rep):
     misc.rule_min_identity(mod, rep, which=('firstcol',))
     from ..rules import more
     more.rule_colamd_args(mod, rep)
+    more.rule_link_order(mod, rep)
